@@ -167,4 +167,19 @@ def request : Bool → List Tok → List Tok
     else .stop n :: request nw ts
   | nw, t :: ts => t :: request nw ts
 
+/-! ### `delay.Insert` / `delay.Stanza` (round F): instances of `insertAfter`
+
+`xmlstream.InsertFunc`: the tokens of the delay are written after the start tag of every
+top-level element (`Insert`) / of every top-level stanza of the given namespace, any
+namespace when it is empty (`Stanza`). -/
+
+def isStanza (n : Name) (ns : String) : Bool :=
+  (n.loc = "iq" || n.loc = "message" || n.loc = "presence") && (ns = "" || n.space = ns)
+
+def delayInsert (ins : List Tok) (ts : List Tok) : List Tok :=
+  insertAfter (fun lvl _ => if lvl = 1 then ins else []) 0 ts
+
+def delayStanza (ins : List Tok) (ns : String) (ts : List Tok) : List Tok :=
+  insertAfter (fun lvl n => if lvl = 1 && isStanza n ns then ins else []) 0 ts
+
 end XmppModel.Unwrap
